@@ -2,10 +2,13 @@
    Property theorems only (Proofs/ReconTextProofs.v), for keys that are texts (the usual map key): the
    comparison of two spellings ([text_key_eq]: what compare_recon_values computes for single text-like
    tokens; string equality as soon as one side is not valid) against the texts themselves.
-   For arbitrary Recon (records, numbers, blobs, attribute bodies) the agreement of
+   For keys that are integers (Model/ReconNum.v): any two spellings - decimal, hexadecimal, binary, leading
+   zeros, -0 - against the integers they denote ([nv_eq] is NumericValue::eq, [nv_hash_key] what the hasher is fed).
+   For arbitrary Recon (records, floats, blobs, attribute bodies) the agreement of
    compare_recon_values / recon_hash with the equality of the parsed values is checked by an oracle that
    runs only the real code (partial). *)
 From SwimV Require Import Model.ReconText Proofs.ReconTextProofs.
+From SwimV Require Import Model.ReconNum Proofs.ReconNumProofs.
 Open Scope N_scope.
 
 (* the printed forms of two texts compare equal exactly when the texts are equal: keys that differ only in
@@ -21,6 +24,23 @@ Proof. exact quoted_and_printed_agree. Qed.
 (* whatever the spelling, the key is the un-escaped text *)
 Theorem C15_key_of_printed_text : forall t, key_token (write_string_literal t) = KText t.
 Proof. exact key_token_printed. Qed.
+
+(* integer keys: comparing two literals without building values (kind by kind, as NumericValue::eq does) is
+   comparing the integers, whatever kinds the two were read as *)
+Theorem C15_number_equality : forall a b, well_kinded a = true -> well_kinded b = true ->
+  nv_eq a b = (nz a =? nz b)%Z.
+Proof. exact nv_eq_is_number_equality. Qed.
+
+(* ... and numbers that compare equal feed the hasher the same thing *)
+Theorem C15_equal_numbers_hash_alike : forall a b, well_kinded a = true -> well_kinded b = true ->
+  nv_eq a b = true -> nv_hash_key a = nv_hash_key b.
+Proof. exact equal_numbers_hash_alike. Qed.
+
+(* any two spellings of integers are one key exactly when they denote the same integer *)
+Theorem C15_integer_keys_compare_by_number : forall a b x y,
+  int_of_text a = Some x -> int_of_text b = Some y ->
+  nv_eq x y = (nz x =? nz y)%Z /\ (nv_eq x y = true -> nv_hash_key x = nv_hash_key y).
+Proof. exact integer_keys_compare_by_number. Qed.
 
 Example C15_nonvacuous :
   text_key_eq [97] [34; 92; 117; 48; 48; 54; 49; 34] = true /\          (* a  vs  "a" *)
